@@ -287,6 +287,7 @@ func (e *Engine) callInvoke(st *State, fr *Frame, c *ssa.CallCommon, recv Val, a
 		key = n.Obj().Pkg().Path() + "." + key
 	}
 	if m, ok := ifaceModels[key]; ok {
+		e.callbackEvent(st, fr, c, recv, args, pos, ins)
 		setRes(m(e, st, fr, recv, args, resT, pos, ins))
 		return
 	}
@@ -537,6 +538,21 @@ func (e *Engine) havocLocation(st *State, env *Env, m string) {
 	if strings.HasPrefix(m, "heap:") {
 		st.heap(m[5:], st.hsort[m[5:]])
 		st.havocHeap(m[5:])
+		return
+	}
+	if strings.HasPrefix(m, "guarded(") && strings.HasSuffix(m, ")") {
+		// everything protected by the monitor of the named lock
+		ex, err := parseSpecExpr(m[8 : len(m)-1])
+		if err != nil || ex.Op != "sel" {
+			env.errf("guarded(x.lock) expected: %q", m)
+			return
+		}
+		x := env.eval(ex.Args[0])
+		if mon := e.monitorFor(deref(x.T), ex.Name); mon != nil {
+			e.havocGuarded(st, mon, x.S, deref(x.T))
+		} else {
+			env.errf("no monitor declared for %s", m)
+		}
 		return
 	}
 	elems := false
